@@ -1,1 +1,17 @@
 import AL.Props.C19
+#print axioms AL.C19.equals_iff
+#print axioms AL.C19.equals_iff_same_all
+#print axioms AL.C19.equals_symm
+#print axioms AL.C19.equals_refl
+#print axioms AL.C19.equals_trans
+#print axioms AL.C19.equals_trans_all
+#print axioms AL.C19.dup_exact
+#print axioms AL.C19.dup_exact'
+#print axioms AL.C19.dup_count_perm
+#print axioms AL.C19.equals_member_perm
+#print axioms AL.C19.equals_congr_same
+#print axioms AL.C19.subset_member_perm
+#print axioms AL.C19.expr_never
+#print axioms AL.C19.equals_subset
+#print axioms AL.C19.expr_value_matches
+#print axioms AL.C19.expr_row_ignored
